@@ -248,6 +248,22 @@ Theorem C20_accepted_map_access : forall md m r v, map_accepts true md = true ->
 Proof. exact accepted_map_access. Qed.
 Print Assumptions C20_accepted_map_access.
 
+(* Register::parse of a String register on the register's own LENGTH bytes cuts at the first NUL (on other slices it
+   is the faithful model only: a NUL beyond LENGTH extends the string, a shorter slice without NUL panics) *)
+Theorem C20_string_parse_exact : forall len data, zlen data = len ->
+  parse_str len data = (let s := m_until_nul data in if is_ascii s then Ok (VBytes s) else Err ME_INVALID_DATA).
+Proof. exact parse_str_exact. Qed.
+Print Assumptions C20_string_parse_exact.
+
+(* every reachable raw memory is a vector of bytes: the hypothesis bytes_ok of the typed theorems always holds *)
+Theorem C20_reachable_bytes : forall md,
+  (forall m, inits_bytes md -> mem_new md = Ok m -> bytes_ok (m_raw m)) /\
+  (forall m r v m', bytes_ok (m_raw m) -> value_bytes v -> mem_write m r v = Ok m' -> bytes_ok (m_raw m')) /\
+  (forall m a buf m', bytes_ok (m_raw m) -> bytes_ok buf -> write_raw m a buf = Ok m' -> bytes_ok (m_raw m')) /\
+  (forall m r a m', bytes_ok (m_raw m) -> mem_set_access_right m r a = Ok m' -> bytes_ok (m_raw m')).
+Proof. exact reachable_bytes. Qed.
+Print Assumptions C20_reachable_bytes.
+
 (* typed access does not look at the access rights; registers without explicit offsets are laid out back to back *)
 Theorem C20_typed_access_ignores_rights : forall raw p p' obs r v,
   mem_read {| m_raw := raw; m_prot := p; m_obs := obs |} r = mem_read {| m_raw := raw; m_prot := p'; m_obs := obs |} r /\
